@@ -362,9 +362,19 @@ func (s *TranslateFile) replayEntries() error {
 	for {
 		offset := s.n
 
-		var entry LogEntry
-		if n, err := entry.ReadFrom(r); err == io.EOF {
+		// Exit when there are no more entries to parse.
+		if r.Len() == 0 {
 			return nil
+		}
+
+		var entry LogEntry
+		if n, err := entry.ReadFrom(r); err == io.EOF || err == io.ErrUnexpectedEOF {
+			// The file ends inside the last entry: the process was killed
+			// while appending it (a large entry is written in several
+			// chunks). The entry was never acknowledged; cut it off so that
+			// new entries follow the last complete one.
+			s.logger.Printf("translate file: truncating torn log entry: path=%s, size=%d, valid=%d", s.Path, fi.Size(), offset)
+			return errors.Wrap(s.file.Truncate(offset), "truncating torn log entry")
 		} else if err != nil {
 			return err
 		} else {
